@@ -150,8 +150,14 @@ func (fr *frame) logStore(addr *value) {
 		return
 	}
 	ps.undo = append(ps.undo, undoRec{addr: addr, old: *addr})
-	if ps.logWrites {
+	if ps.logWrites && ps.inOnce == 0 {
 		ps.writes = append(ps.writes, addr)
+	}
+	if ps.logWrites && ps.inOnce > 0 {
+		if ps.onceWrites == nil {
+			ps.onceWrites = map[*value]*value{}
+		}
+		ps.onceWrites[addr] = ps.onceStack[len(ps.onceStack)-1]
 	}
 }
 
@@ -413,4 +419,33 @@ func fmtObs(v value) string {
 		return "nil"
 	}
 	return fmt.Sprintf("<%T>", v)
+}
+
+// logLoad records the cells read by a load of type T (only while the write log is on).
+func (fr *frame) logLoad(T types.Type, addr *value) {
+	ps := fr.i.ps
+	if ps == nil || !ps.logWrites || addr == nil {
+		return
+	}
+	switch T := T.Underlying().(type) {
+	case *types.Struct:
+		if v, ok := (*addr).(structure); ok {
+			for i := range v {
+				fr.logLoad(T.Field(i).Type(), &v[i])
+			}
+		}
+	case *types.Array:
+		if v, ok := (*addr).(array); ok {
+			for i := range v {
+				fr.logLoad(T.Elem(), &v[i])
+			}
+		}
+	default:
+		ps.accSeq++
+		var o *value
+		if n := len(ps.onceStack); n > 0 {
+			o = ps.onceStack[n-1]
+		}
+		ps.reads = append(ps.reads, readRec{addr, ps.accSeq, o})
+	}
 }
